@@ -408,10 +408,24 @@ def run_mode_case(case):
     reset_library()
     objs = [world.A(n=k + 1) for k in range(case.get("nrows", 2))]
     queries = {}
+    from entity_query_language import or_, and_, not_, in_, contains
+    # the iterators of a behaviour run queries of different shapes (every object qualifies in each of them): the nodes a
+    # result passes through while the iterator is suspended differ - comparator, method call, predicate, bare
+    # attribute, disjunction whose right branch produces the result, negation, membership, sub-query
+    shapes = [lambda x: x.n >= 0,
+              lambda x: x.n_ge(0),
+              lambda x: or_(x.n >= 5, x.n_ge(0)),
+              lambda x: world.p_true(x.n),
+              lambda x: x.n,
+              lambda x: and_(x.n >= 0, x.n_plus(1) >= 1),
+              lambda x: not_(x.n < 0),
+              lambda x: contains([1, 2, 3, 4], x.n),
+              lambda x: (lambda y: x == an(entity(y, y.n >= 0)))(let(world.A, domain=objs)),
+              lambda x: or_(x.is_small(), x.n >= 2)]
     for i in range(1, case.get("niter", 2) + 1):
         x = let(world.A, domain=objs)
         with symbolic_mode():
-            queries[i] = an(entity(x, x.n >= 0))
+            queries[i] = an(entity(x, shapes[(case.get("shapes") or [0] * i)[i - 1] % len(shapes)](x)))
     ctx_var = let(world.A, domain=objs)
     with symbolic_mode():
         ctx_query = an(entity(ctx_var, ctx_var.n >= 0))
